@@ -39,6 +39,21 @@ func main() {
 	run = vh.Start("c19", "enc: random block headers / tx bodies (boundary integers, empty and odd-length byte fields), real digest input vs model; "+
 		"mut: every exported field of BlockHeader/TxBody mutated singly (bit flip, append, truncate) against all four digests; "+
 		"non-trivial = the operation reached a non-error model clause; distinct by (op, answer)")
+	// the model prints the input of a digest it cannot observe directly as `sha256:<hex>`; evaluated here with SHA-256
+	run.EvalTerms(func(line string) string {
+		if !strings.HasPrefix(line, "sha256:") {
+			return line
+		}
+		arg := strings.TrimPrefix(line, "sha256:")
+		var b []byte
+		if arg != "-" {
+			var err error
+			if b, err = hex.DecodeString(arg); err != nil {
+				return line
+			}
+		}
+		return hx(sha(b))
+	})
 	defer run.Finish()
 	// vh.NewRng(seed) starts splitmix64 at seed*gamma+c, so the streams of seeds k and k+1 are the same stream shifted by one
 	// draw and re-synchronise quickly; forking through one mixed output gives unrelated streams per seed.
@@ -150,46 +165,6 @@ func assigns(v reflect.Value) string {
 	return sb.String()
 }
 
-// candidate digest input: exported fields in declaration order, integers fixed-width little endian,
-// optionally without one field. Only ever *reported* as the implementation's digest input after
-// sha256(candidate) was found equal to the real function's output.
-func candidate(v reflect.Value, omit string) []byte {
-	var b bytes.Buffer
-	t := v.Type()
-	for i := 0; i < t.NumField(); i++ {
-		f := t.Field(i)
-		if !f.IsExported() || f.Name == omit {
-			continue
-		}
-		fv := v.Field(i)
-		switch fv.Kind() {
-		case reflect.Slice:
-			b.Write(fv.Bytes())
-		case reflect.Uint64:
-			u := fv.Uint()
-			for k := 0; k < 8; k++ {
-				b.WriteByte(byte(u >> (8 * uint(k))))
-			}
-		case reflect.Int64:
-			u := uint64(fv.Int())
-			for k := 0; k < 8; k++ {
-				b.WriteByte(byte(u >> (8 * uint(k))))
-			}
-		case reflect.Uint32:
-			u := fv.Uint()
-			for k := 0; k < 4; k++ {
-				b.WriteByte(byte(u >> (8 * uint(k))))
-			}
-		case reflect.Int32:
-			u := uint32(int32(fv.Int()))
-			for k := 0; k < 4; k++ {
-				b.WriteByte(byte(u >> (8 * uint(k))))
-			}
-		}
-	}
-	return b.Bytes()
-}
-
 // verified returns the hex of cand if its SHA-256 is the real digest, else a marker that can never equal a model answer.
 func verified(cand, realDigest []byte) string {
 	s := sha256.Sum256(cand)
@@ -298,8 +273,8 @@ func digests() {
 		b := &types.TxBody{}
 		fill(reflect.ValueOf(b).Elem(), txTypical)
 		as = assigns(reflect.ValueOf(b).Elem())
-		run.Op("enc tx"+as, verified(candidate(reflect.ValueOf(b).Elem(), ""), txID(b)), true)
-		run.Op("enc txsign"+as, verified(candidate(reflect.ValueOf(b).Elem(), "Sign"), txSign(b)), true)
+		run.Op("enc tx"+as, hx(txID(b)), true)
+		run.Op("enc txsign"+as, hx(txSign(b)), true)
 		run.Count("enc-tx")
 
 		if i%10 != 0 {
@@ -732,8 +707,15 @@ func merkleBytes(r *types.Receipt, v2 bool) ([]byte, error) {
 var hfCfg = &config.HardforkConfig{V2: 1000, V3: 2000, V4: 3000, V5: 4000}
 
 func blockNoFor(v2 bool) types.BlockNo {
+	edge := rng.Chance(1, 3) // sit on the fork height itself / the last block before it
 	if v2 {
+		if edge {
+			return 1000
+		}
 		return types.BlockNo(1000 + rng.Intn(5000))
+	}
+	if edge {
+		return 999
 	}
 	return types.BlockNo(rng.Intn(1000))
 }
